@@ -78,6 +78,17 @@ Theorem accepted_flat_pipelines_are_compiled_correctly : forall sch d a c,
 Proof. exact accepted_compile_correct_proof. Qed.
 Print Assumptions accepted_flat_pipelines_are_compiled_correctly.
 
+(* ... the fragment includes joins (inner / left / full: "a join after slice_head on either operand needs a subquery"
+   is what guarantees that the operands carry no LIMIT), unions, alias() and the subquery marker *)
+Example accepted_join_example :
+  let sch := [(1%N, TS SInt64); (2%N, TS SInt64); (3%N, TS SInt64); (4%N, TS SInt64)] in
+  let l := Filter (Source "l" [("k"%string, 1%N); ("x"%string, 2%N)]) [EFn Op_greater_than [ECol 2%N; ELit (VInt 0)] false [] []] in
+  let r := Source "r" [("k2"%string, 3%N); ("z"%string, 4%N)] in
+  let j := Join l r (EFn Op_equal [ECol 1%N; ECol 3%N] false [] []) JLeft in
+  shape_ok j = true /\ accepted sch j = true
+  /\ accepted sch (Join (SliceHead l 2 0) r (EFn Op_equal [ECol 1%N; ECol 3%N] false [] []) JLeft) = false.
+Proof. vm_compute. repeat split; reflexivity. Qed.
+
 (* shape_ok asks every slice_head to keep at least one row.  Without that the statement is FALSE of the
    faithful model: slice_head(0) sets the metadata's limit to 0, which the catalogue reads as "no limit",
    so a following summarize is accepted and folded into the same SELECT (COUNT ... LIMIT 0 returns no
